@@ -319,7 +319,7 @@ def uid_generator(rep, quick, seed):
     r3 = tlc("UniqueIdGen", cfg, workers=2, timeout=600)
     if "Invariant Distinct is violated" not in r3["out"]:
         raise ToolError("sanity: load/store variant of the counter not caught by TLC")
-    threads, calls = (8, 4000) if quick else (16, 40000)
+    threads, calls = (8, 4000) if quick else (16, 10000)
     trace = os.path.join(OUT, "C12_uid_trace.ndjson")
     rbxv(["uid-stress", "--threads", threads, "--calls", calls], stdout_path=trace)
     tcfg = os.path.join(OUT, "UniqueIdGenTrace.cfg")
